@@ -1,12 +1,15 @@
 #!/bin/bash
-# usage: tools_try_mutant.sh <patch.diff> <check ids...>   (applies to /repo, runs checks, reverts)
+# usage: tools_try_mutant.sh <patch.diff> <check ids...>
+# Applies the patch in a scratch worktree of /repo HEAD (never touches /repo itself),
+# runs the checks against it through VERIF_REPO, removes the worktree.
 P="$1"; shift
-cd /repo || exit 2
-if ! git apply --check "$P" 2>/dev/null; then echo "PATCH DOES NOT APPLY: $P"; git apply --check "$P"; exit 3; fi
-git apply "$P"
+WT=/tmp/wt/try_$$
+git -C /repo worktree add -q --detach $WT HEAD || exit 2
+if ! git -C $WT apply --check "$P" 2>/dev/null; then echo "PATCH DOES NOT APPLY: $P"; git -C /repo worktree remove --force $WT; exit 3; fi
+git -C $WT apply "$P"
 for id in "$@"; do
-  echo "--- $id with $(basename $(dirname $P))"
-  (cd /verif && ./check $id --tier quick 2>&1 | grep -E "^(OK|VIOLATION|KNOWN|MACHINERY|  violated)" | cut -c1-260 | head -8)
+  echo "--- $id with $(basename $(dirname $P))/$(basename $P)"
+  (cd /verif && VERIF_REPO=$WT ./check $id --tier ${TIER:-quick} 2>&1 | grep -E "^(OK|VIOLATION|KNOWN|MACHINERY|  violated)" | cut -c1-260 | head -8)
 done
-git -C /repo checkout -- .
-git -C /repo status --short | head -3
+git -C /repo worktree remove --force $WT
+# evidence files were rewritten from the scratch copy: restore them from the real tree later
